@@ -271,7 +271,7 @@ void TcpConnection::forceCloseInLoop()
 
 const char* TcpConnection::stateToString() const
 {
-  switch (state_)
+  switch (state_.load())
   {
     case kDisconnected:
       return "kDisconnected";
